@@ -81,6 +81,30 @@ def check(run, prog, tier):
         run.ob("P3", f"{CHECK}:key@{'write' if e.kind == 'store' else 'read'}#{n_keys}", ok, loc(fi, e.node),
                f"memory key {show(k)} must contain sender and channel" if not ok else f"key {show(k)} = (sender, channel)")
     run.floor("P3", n_keys, 2)
+    # the memory is touched only under the key of the message being checked: records of other senders /
+    # of the same sender's other channel must neither be created, changed nor dropped
+    own_keys = {strip_sites(k) for e, k in keys if e.kind == "load" or (e.kind == "call" and e.attrname in ("get", "__getitem__"))} or \
+        {strip_sites(k) for e, k in keys}
+    canonical = None
+    for k in own_keys:
+        if k[0] == "tuple" and set(k[1]) == {P(fi, sender), P(fi, channel)}:
+            canonical = k
+    foreign = []
+    whole = []
+    for p in paths:
+        for e in p.events:
+            if e.kind == "call" and e.recv == ("attr", ("self", STORAGE), mem_attr) and e.attrname in ("pop", "clear", "popitem", "update", "setdefault", "__delitem__"):
+                if e.attrname in ("clear", "popitem", "update"):
+                    whole.append(e)
+                elif e.args and canonical is not None and strip_sites(e.args[0]) != canonical:
+                    foreign.append((e, e.args[0]))
+            if e.kind == "store" and e.target[0] == "item" and e.target[1] == ("attr", ("self", STORAGE), mem_attr):
+                if canonical is not None and strip_sites(e.target[2]) != canonical:
+                    foreign.append((e, e.target[2]))
+    run.ob("P3", f"{CHECK}:only-own-record-touched", canonical is not None and not foreign and not whole, loc(fi, (foreign or whole or [(None,)])[0][0].node if (foreign or whole) and (foreign or whole)[0][0] is not None else None) if False else loc(fi),
+           "only the record under (sender, channel) of the current message is read, written or removed" if (canonical is not None and not foreign and not whole) else
+           (f"the record under {show(foreign[0][1])} is modified while checking a message of (sender, channel): another channel's / sender's history is lost, "
+            "its next reboot indication is masked" if foreign else "the whole memory is modified" if whole else "no canonical (sender, channel) key found"))
 
     # ---------------------------------------------------------------- P2 state update
     for i, p in enumerate(paths):
